@@ -1,0 +1,39 @@
+//go:build verif
+
+// Contracts (machine-checked by /verif/engine, see /verif/DESIGN.md). Comment-only file.
+package state
+
+// ---- C06: packet id tables ---------------------------------------------------------------------------
+
+// fn is offered exactly the listed versions inside [from, to], in list order, until it declines.
+//@ func versionRange
+//@   props C06
+//@   at-call dyn.fn as visit: assert [only-versions-in-range] arg0 == ver.Protocol && ver.Protocol >= from && ver.Protocol <= to
+//@   loop 1: invariant rangeindex >= -1 && rangeindex < len(versions)
+
+// One step of Register for one protocol version: the walk stops exactly when it reaches the start version of the NEXT mapping
+// (a mapping's own last-valid version is inclusive); otherwise the id and the type are entered in both directions of that
+// version's table, and an id or a type that is already present is never overwritten (the function panics instead).
+//@ func (*PacketRegistry).Register$1
+//@   props C06
+//@   maypanic
+//@   at-call mapupdate: assert [never-overwrites] !has(arg0, arg1)
+//@   ensures [stops-only-at-next-mapping] result == !(protocol == to && next != current)
+//@   ensures [entered-both-ways] result ==> has(p.Protocols, protocol) && p.Protocols[protocol].PacketIDs[current.ID] == packetType && has(p.Protocols[protocol].PacketIDs, current.ID) && has(p.Protocols[protocol].PacketTypes, packetType) && p.Protocols[protocol].PacketTypes[packetType] == current.ID
+
+// Unknown protocol versions fall back to the lowest supported version's table.
+//@ func (*PacketRegistry).ProtocolRegistry
+//@   props C06
+//@   at-call ProtocolRegistry as fb: assert [fallback-to-minimum] arg0 == p && arg1 == version.MinimumVersion.Protocol && p.Fallback && p.Protocols[protocol] == nil
+//@   ensures [known-version-own-table] p.Protocols[protocol] != nil ==> result == p.Protocols[protocol] && !called(fb)
+//@   ensures [unknown-version] p.Protocols[protocol] == nil ==> (p.Fallback ==> called(fb) && result == res(fb)) && (!p.Fallback ==> result == nil)
+
+//@ func FromDirection
+//@   props C06
+//@   at-call ProtocolRegistry as pr: assert arg1 == protocol && arg0 == ite(direction == proto.ServerBound, state.ServerBound, state.ClientBound)
+//@   ensures [by-direction] called(pr) && result == res(pr)
+
+//@ func (*ProtocolRegistry).PacketID
+//@   props C06
+//@   at-call TypeOf as ty: assert arg0 == of
+//@   ensures [lookup-by-type] called(ty) && found == has(r.PacketTypes, res(ty)) && (found ==> id == r.PacketTypes[res(ty)])
